@@ -35,7 +35,7 @@ from .loader import FuncInfo
 
 
 _PURE_FUNCS: Dict[str, Callable[..., Any]] = {
-    "int": int, "str": str, "len": len, "float": float, "bool": lambda x=False: bool(x), "abs": abs, "repr": repr,
+    "int": int, "str": str, "len": len, "float": float, "bool": lambda x=False: bool(x), "abs": abs, "repr": repr, "hash": hash,
     # iteration helpers: their result is materialised (the explorer iterates over sequences it knows)
     "enumerate": lambda *a: list(enumerate(*a)), "zip": lambda *a: list(zip(*a)), "range": lambda *a: list(range(*a)),
     "list": list, "tuple": tuple, "reversed": lambda a: list(reversed(a)), "min": min, "max": max, "sum": sum, "slice": slice,
@@ -48,6 +48,10 @@ _PLAIN_CLASSES = {
     # classes no plain sample value is an instance of
     "Decimal": (), "NodeList": (), "Pattern": (), "IOBase": (), "bytes": (), "JSONPathMatch": (), "_Undefined": (),
 }
+
+
+_BINOP_DUNDER = {ast.Div: "__truediv__", ast.Add: "__add__", ast.Sub: "__sub__", ast.Mult: "__mul__", ast.BitOr: "__or__", ast.BitAnd: "__and__",
+                 ast.FloorDiv: "__floordiv__", ast.Mod: "__mod__"}
 
 
 class _Unknown:
@@ -323,6 +327,14 @@ class Explorer:
                     else:
                         parts.append(None)
             return _text(parts)
+        if isinstance(e, ast.BinOp) and self.enter_with and type(e.op) in _BINOP_DUNDER:
+            left_o = self.value(e.left, env)
+            if isinstance(left_o, AbstractObject) and hasattr(left_o, "peval_call"):
+                # an operator of a model object is its special method (`pointer / part`)
+                r_o = left_o.peval_call(_BINOP_DUNDER[type(e.op)], [self.value(e.right, env)], {})
+                if type(r_o).__name__ == "_Raises":
+                    raise _PathRaises(str(getattr(getattr(left_o, "model", None), "last_raised", None) or "callee raises"))
+                return r_o
         if isinstance(e, ast.BinOp) and isinstance(e.op, ast.Add):
             a, b = as_text(self.value(e.left, env)), as_text(self.value(e.right, env))
             if a is not None or b is not None:
